@@ -207,9 +207,6 @@ Proof.
   rewrite cleanup_circ_l. reflexivity.
 Qed.
 
-Lemma nk_01 : forall k, nk k = 0 \/ nk k = 1.
-Proof. intros. unfold nk. destruct (k =? 0); auto. Qed.
-
 Lemma linv_apply_op : forall b c s o, 0 <= c_ttl c ->
   linv b s -> linv b (fst (apply_op c s o)).
 Proof.
